@@ -54,6 +54,8 @@ def run(ctx):
     check_placement(ctx)
     check_strip_simulation(ctx)
     check_truncate_simulation(ctx, T)
+    ctx.rule('R8.9', 'the serializer every formatted statement passes through changes nothing but unquoted line ends and blanks at line ends', floor=1)
+    RF.check_serializer_sim(ctx, 'R8.9')
     from .. import rules_tree as RT2
     ctx.rule('R8.5', 'strip_comments reaches every comment: the filter descends into every group (get_sublists yields every group child)', floor=3)
     RT2.check_filter_descends(ctx, 'R8.5', RF.filter_class(ctx, 'StripCommentsFilter'))
